@@ -41,7 +41,8 @@ def slog_term(v):
           z3.Implies(t > 0, EXP(LOG(t)) == t),
           z3.Implies(t == one, LOG(t) == 0),
           z3.Implies(t >= z3.RealVal('1/1000000000000'), LOG(t) >= z3.RealVal('-28')),   # ln 1e-12 > -27.7
-          z3.Implies(t >= z3.RealVal('1/1000000'), LOG(t) >= z3.RealVal('-14'))]
+          z3.Implies(t >= z3.RealVal('1/1000000'), LOG(t) >= z3.RealVal('-14')),
+          z3.Implies(t >= z3.RealVal('1/' + '1' + '0' * 24), LOG(t) >= z3.RealVal('-56'))]   # ln 1e-24 > -55.3
     for a in args:  # strict monotonicity against every earlier argument
         fs.append(z3.Implies(z3.And(a > 0, t > 0, a < t), LOG(a) < LOG(t)))
         fs.append(z3.Implies(z3.And(a > 0, t > 0, t < a), LOG(t) < LOG(a)))
